@@ -3744,3 +3744,11 @@ Proof.
   lra.
 Qed.
 End Score.
+
+Lemma cut_balanced_cap_lemma argsort n D m sort ret labels od :
+  valid n D = true -> argsort_ok argsort ->
+  cut_balanced argsort D m sort ret = Ok (labels, od) ->
+  forall l, cluster_size labels l <= m.
+Proof.
+  intros Hv Ha Hc. destruct (cut_balanced_subtrees argsort n D m sort ret labels od Hv Ha Hc) as [ids [_ [_ H]]]. exact H.
+Qed.
